@@ -44,7 +44,7 @@ def handle (case impl : List String) : Verdict :=
     let nTrisSubmitted := s.hist.foldl (fun n c => n + c.2.length) 0
     let v := v.withSpec (g 0 != s.hist.length) "stats-calls" s!"calls = {g 0}, {s.hist.length} render calls were made"
     let v := v.withSpec (g 1 != nTrisSubmitted) "stats-prims-in" s!"prims.i = {g 1}, {nTrisSubmitted} triangles were submitted"
-    let v := v.withSpec (g 3 != s.hist.length * s.verts.length) "stats-verts-in" s!"verts.i = {g 3}"
+    let v := v.withSpec (g 3 != (s.hist.filter fun c => !c.2.isEmpty).length * s.verts.length) "stats-verts-in" s!"verts.i = {g 3}"
     let v := v.withSpec (g 4 != 3 * g 2) "stats-verts-out" s!"verts.o = {g 4} but prims.o = {g 2}"
     let v := v.withSpec (g 6 > g 5) "stats-frags" s!"frags.o = {g 6} exceeds frags.i = {g 5}"
     let v := v.withSpec (g 7 > g 5) "shader-calls" s!"fragment shader ran {g 7} times for {g 5} fragments"
